@@ -3,6 +3,7 @@ From Coq Require Import ZArith NArith List Bool Reals Floats.
 From PV Require Import Num NumR model.Optimiser model.OptSpec proofs.OptStruct proofs.OptLoop proofs.OptConv proofs.FloatFacts proofs.RealFacts.
 From PV Require Import model.Cli gen.GenCli proofs.CliFacts.
 From PV Require Import gen.GenFns model.Iter model.Pipeline proofs.ListLemmas proofs.SrcOpt.
+From PV Require Import proofs.SourceHeadlinesOpt.
 
 Theorem C20_work_bounds :
   forall (NN : Num) (c : cfg NN), (work NN c <= steps NN c)%N /\ (inner NN c <> 0%N -> (steps NN
@@ -187,4 +188,22 @@ Theorem C20_optimiser_source_translated :
     translated_gen_set_sampled = true.
 Proof. exact optimiser_source_translated. Qed.
 Print Assumptions C20_optimiser_source_translated.
+
+
+Theorem C20_source_optimise_returns :
+  forall (NN : Num) (fexp : carrier NN -> carrier NN) (score : N -> list (carrier NN) -> option
+    (carrier NN)), (forall (k k' : N) (ps : list (carrier NN)), score k ps = score k' ps) ->
+    forall (c : cfg NN) (ps : list (carrier NN)) (hs : list (handle NN)) (s0 : carrier NN)
+    (draws : list (draw NN)), score 0%N ps = Some s0 -> draws_in_range NN (length hs) draws ->
+    (work NN c <= N.of_nat (length draws))%N -> exists st : ost NN, src_optimise NN fexp score c
+    ps hs draws = Returned NN st /\ score 0%N (params NN st) = Some (score_cur NN st).
+Proof. exact source_optimise_returns. Qed.
+Print Assumptions C20_source_optimise_returns.
+
+Theorem S_optimise_state_is_the_source_pieces :
+  forall (NN : Num) (fexp : carrier NN -> carrier NN) (score : N -> list (carrier NN) -> option
+    (carrier NN)) (c : cfg NN) (ps : list (carrier NN)) (hs : list (handle NN)) (draws : list
+    (draw NN)), optimise NN fexp score c ps hs draws = src_optimise NN fexp score c ps hs draws.
+Proof. exact optimise_state_is_the_source_pieces. Qed.
+Print Assumptions S_optimise_state_is_the_source_pieces.
 
